@@ -325,35 +325,40 @@ Definition obs_eqc (c : eqc) : list Z :=
 Definition triples : list (Z * Z * Z) := flat_map (fun k => map (fun p => (k, fst p, snd p)) pairs) keys.
 Definition kmasks (f : Z -> Z -> bool) : list Z := map (fun k => somemask (f k) vals) keys.
 
-(* ternary: a panic while reading is the observation [-1] *)
-Definition obs_eq2 (t : eq2) : res (list Z) :=
+(* ternary: a panic while one view is read fills the numbers of that view with -1 *)
+Definition or_panic (n : nat) (r : res (list Z)) : list Z := match r with Ok l => l | Panic => repeat (-1)%Z n end.
+Definition obs_eq2 (t : eq2) : list Z :=
   let fget := filter (fun p => is_some (tv_full_get t (fst (fst p)) (snd (fst p)) (snd p))) triples in
   let fck := filter (fun p => t_contains t (fst (fst p)) (snd (fst p)) (snd p)) triples in
   let fall := flat_map (fun e => map (fun _ => fst e) (snd e)) (tv_full_all t) in
   let i0get := flat_map (fun k => match tv_ind0_get t k with Some l => map (fun p => (k, fst p, snd p)) l | None => [] end) keys in
   let i0all := flat_map (fun e => map (fun p => (fst e, fst p, snd p)) (snd e)) (tv_ind0_all t) in
-  do i1get <- seq_res (map (fun x => match tv_ind1_get t x with
-                                      | Some r => do l <- r; Ok (map (fun ky => (fst ky, x, snd ky)) l)
-                                      | None => Ok [] end) vals);
-  do i1all <- tv_ind1_all t;
+  let i1 :=
+    do i1get <- seq_res (map (fun x => match tv_ind1_get t x with
+                                        | Some r => do l <- r; Ok (map (fun ky => (fst ky, x, snd ky)) l)
+                                        | None => Ok [] end) vals);
+    do i1all <- tv_ind1_all t;
+    Ok ([somemask (fun x => is_some (tv_ind1_get t x)) vals] ++ acc3 (concat i1get)
+        ++ acc3 (flat_map (fun e => map (fun ky => (fst ky, fst e, snd ky)) (snd e)) i1all)) in
   let i01get := flat_map (fun k => flat_map (fun x => match tv_ind01_get t k x with Some ys => map (fun y => (k, x, y)) ys | None => [] end) vals) keys in
   let i01all := flat_map (fun e => map (fun y => (fst (fst e), snd (fst e), y)) (snd e)) (tv_ind01_all t) in
   let i02get := flat_map (fun k => flat_map (fun y => match tv_ind01_get t k y with Some xs => map (fun x => (k, x, y)) xs | None => [] end) vals) keys in
   let i02all := flat_map (fun e => map (fun x => (fst (fst e), x, snd (fst e))) (snd e)) (tv_ind01_all t) in
-  do i12get <- seq_res (map (fun p => match tv_ind12_get t (fst p) (snd p) with
-                                       | Some r => do l <- r; Ok (map (fun k => (k, fst p, snd p)) l)
-                                       | None => Ok [] end) pairs);
   let i12all := flat_map (fun e => map (fun k => (k, fst (fst e), snd (fst e))) (snd e)) (tv_ind12_all t) in
+  let i12 :=
+    do i12get <- seq_res (map (fun p => match tv_ind12_get t (fst p) (snd p) with
+                                         | Some r => do l <- r; Ok (map (fun k => (k, fst p, snd p)) l)
+                                         | None => Ok [] end) pairs);
+    Ok ([fold_left (fun m p => if is_some (tv_ind12_get t (fst p) (snd p)) then Z.lor m (bit (fst p) (snd p)) else m) pairs 0%Z]
+        ++ acc3 (concat i12get) ++ acc3 i12all) in
   let nget := match tv_none_get t with Some l => l | None => [] end in
-  Ok (firstn (S nk) (acc3 fget) ++ [0%Z] ++ firstn (S nk) (acc3 fck) ++ acc3 fall
-      ++ [somemask (fun k => is_some (tv_ind0_get t k)) keys] ++ acc3 i0get ++ acc3 i0all
-      ++ [somemask (fun x => is_some (tv_ind1_get t x)) vals] ++ acc3 (concat i1get)
-      ++ acc3 (flat_map (fun e => map (fun ky => (fst ky, fst e, snd ky)) (snd e)) i1all)
-      ++ kmasks (fun k x => is_some (tv_ind01_get t k x)) ++ acc3 i01get ++ acc3 i01all
-      ++ kmasks (fun k x => is_some (tv_ind01_get t k x)) ++ acc3 i02get ++ acc3 i02all
-      ++ [fold_left (fun m p => if is_some (tv_ind12_get t (fst p) (snd p)) then Z.lor m (bit (fst p) (snd p)) else m) pairs 0%Z]
-      ++ acc3 (concat i12get) ++ acc3 i12all
-      ++ [1%Z] ++ acc3 nget ++ acc3 nget).
+  firstn (S nk) (acc3 fget) ++ [0%Z] ++ firstn (S nk) (acc3 fck) ++ acc3 fall
+  ++ [somemask (fun k => is_some (tv_ind0_get t k)) keys] ++ acc3 i0get ++ acc3 i0all
+  ++ or_panic (2 * S nk + 3) i1
+  ++ kmasks (fun k x => is_some (tv_ind01_get t k x)) ++ acc3 i01get ++ acc3 i01all
+  ++ kmasks (fun k x => is_some (tv_ind01_get t k x)) ++ acc3 i02get ++ acc3 i02all
+  ++ or_panic (2 * S nk + 3) i12
+  ++ [1%Z] ++ acc3 nget ++ acc3 nget.
 End Obs.
 
 (* ------------------------------------------------------------------ histories *)
@@ -425,10 +430,7 @@ Fixpoint ter_trace (d1 : Z) (nk : nat) (s : tstate) (h : list op) : list (list Z
   | OPar _ :: t => [[-1]%Z]
   | o :: t =>
       let s' := match o with ORestart => t_restart s | OMerge => t_merge_protocol s | _ => t_merge s end in
-      match obs_eq2 d1 nk (ts_delta s'), obs_eq2 d1 nk (ts_total s') with
-      | Ok a, Ok b => (a ++ b) :: ter_trace d1 nk s' t
-      | _, _ => [[-1]%Z]
-      end
+      (obs_eq2 d1 nk (ts_delta s') ++ obs_eq2 d1 nk (ts_total s')) :: ter_trace d1 nk s' t
   end.
 
 Definition fp_trace (t : list (list Z)) : Z := fp (map fp t).
